@@ -66,6 +66,7 @@ type FSInfo struct {
 	N string
 	M fs.FileMode
 	S int64
+	T int64
 }
 
 func (i FSInfo) Name() string               { return i.N }
